@@ -24,6 +24,25 @@ def budget(tier):
     return {"runs": 480, "wall": 300, "selftest": 16, "shrink_s": 40}
 
 
+def directed(tier):
+    """Hand-placed races that random scripts hit too rarely: a second user thread releasing/aborting while the
+    first waits for a DIMSE response, against a handler that sleeps and then ends the association itself."""
+    out = []
+    t = 0.2
+    for act in ("sleep_abort", "sleep_release", "sleep", "abort", "release"):
+        for comp in ("echo_release", "echo_abort"):
+            for gap2 in (0.0005, 0.002, 0.005):
+                for hs in (0.001, 0.01):
+                    out.append({
+                        "sched": {"switch_pct": 30}, "net": {"seg": "whole"}, "config": "fault-free", "faults": [], "acc_ops": [],
+                        "acc": {"acse": t, "dimse": t, "network": 3 * t, "max_pdu": 16382, "echo_act": act, "echo_sleep": hs,
+                                "find_k": 1, "find_sleep": 0.0, "reject": None, "timeout_response": "A-ABORT"},
+                        "req": [{"acse": t, "dimse": t, "network": 3 * t, "max_pdu": 16382, "start_delay": 0.0,
+                                 "ops": [{"op": comp, "gap": 0.0, "gap2": gap2}], "final": "leave", "timeout_response": "A-ABORT"}],
+                    })
+    return out
+
+
 def gen(rng, idx, tier):
     faulty = (idx % 3 == 2)
     sc = L.gen_scenario(rng, faulty=faulty)
@@ -48,8 +67,8 @@ def check(sc, r):
 
 def _racy(sc, r):
     ops = [o["op"] for rq in sc["req"] for o in rq["ops"]]
-    multi = any(o in ("release_abort", "abort_release", "release_release", "echo_abort") for o in ops)
-    return multi or bool(sc.get("acc_ops")) or sc["acc"]["echo_act"] in ("abort", "release") or L.fault_fired(r)
+    multi = any(o in ("release_abort", "abort_release", "release_release", "echo_abort", "echo_release") for o in ops)
+    return multi or bool(sc.get("acc_ops")) or sc["acc"]["echo_act"] in ("abort", "release", "sleep_abort", "sleep_release") or L.fault_fired(r)
 
 
 def nontrivial(sc, r):
